@@ -474,6 +474,7 @@ func (ctx *Context) evaluate() {
 	startTime := time.Now().UnixMilli()
 	for opIndex := 0; opIndex < e.codeIndex; opIndex += 1 {
 		numOpCountAdd(1)
+		verifTick(verifTickOp)
 
 		if ctx.Error == nil && e.top == len(stack) {
 			ctx.Error = errors.New("执行栈到达溢出线")
